@@ -373,6 +373,28 @@ Proof.
   repeat split; try (vm_compute; reflexivity). apply is_perm_sound; reflexivity.
 Qed.
 
+(** * object lifecycle of a configuration (correspondence: kind life - copies, setters, in-place writes, a sampling after every change):
+    once the caller has set decision vector, shape and cross map, nothing of the object's history survives in the fields a sampling
+    reads; equal fields give equal samplings (as functions of the draws) *)
+Theorem C07_session_last_write_wins : forall s0 hist d nc np x tail,
+  Forall (fun o => match o with OpCopy | OpDeepCopy | OpSetRng | OpSample => True | _ => False end) tail ->
+  session s0 (hist ++ [OpSetDecn d; OpSetShape nc np; OpSetXmap x] ++ tail) = {| st_nc := nc; st_np := np; st_decn := d; st_xmap := x |}.
+Proof. exact session_last_write_wins. Qed.
+Print Assumptions C07_session_last_write_wins.
+
+Theorem C07_session_state_determines_sample : forall s0 s0' h h', session s0 h = session s0' h' ->
+  sample_subset (session s0 h) = sample_subset (session s0' h') /\ sample_binary (session s0 h) = sample_binary (session s0' h') /\
+  sample_integer (session s0 h) = sample_integer (session s0' h') /\ sample_mate (session s0 h) = sample_mate (session s0' h') /\
+  sample_integer_mate (session s0 h) = sample_integer_mate (session s0' h') /\ sample_binary_mate (session s0 h) = sample_binary_mate (session s0' h').
+Proof. exact session_state_determines_sample. Qed.
+Print Assumptions C07_session_state_determines_sample.
+
+Example C07_session_hyps_satisfiable :
+  Forall (fun o => match o with OpCopy | OpDeepCopy | OpSetRng | OpSample => True | _ => False end) [OpSample; OpCopy; OpSample] /\
+  session {| st_nc := 1; st_np := 1; st_decn := [0]%Z; st_xmap := [] |} [OpSetDecn [5;6]%Z; OpSample] =
+  session {| st_nc := 3; st_np := 2; st_decn := [1;2;3]%Z; st_xmap := [] |} [OpMutateDecn [5;6]%Z; OpDeepCopy; OpSetShape 1 1].
+Proof. split; [repeat constructor | reflexivity]. Qed.
+
 (** * finding C07-uc-integer-bounds-shape (open): UsefulnessCriterionIntegerSelection.problem builds the upper bound of its decision
     space from the protocol's nmating ARRAY: the two bounds can be stacked iff the protocol asks for one cross; for every valid
     cross design with two or more crosses select() raises instead of producing a configuration *)
